@@ -30,7 +30,10 @@ type SolveResult struct {
 // quantified formulas mean. It decides at once the many goals that follow by propositional and
 // array/bit-vector reasoning from facts that are already stated.
 func (vc *VC) ScriptLight(o *Obligation) (string, bool) {
-	full := vc.Script(o, false, nil)
+	return lightOf(vc.Script(o, false, nil))
+}
+
+func lightOf(full string) (string, bool) {
 	lines := strings.Split(full, "\n")
 	atoms := map[string]string{}
 	var order []string
@@ -93,7 +96,10 @@ func (vc *VC) ScriptLight(o *Obligation) (string, bool) {
 // ScriptWithout is the query without the assumptions of the given kinds (model axioms tagged ;@kind).
 // Dropping premises is sound; it keeps the quantifier instantiation of the solvers focused.
 func (vc *VC) ScriptWithout(o *Obligation, kinds ...string) (string, bool) {
-	full := vc.Script(o, false, nil)
+	return withoutOf(vc.Script(o, false, nil), kinds...)
+}
+
+func withoutOf(full string, kinds ...string) (string, bool) {
 	lines := strings.Split(full, "\n")
 	var out []string
 	dropped := false
@@ -214,7 +220,14 @@ func parseValues(out string) map[string]string {
 	return vals
 }
 
-// Solve races the installed solvers on one obligation.
+// Solve races the installed solvers (and sound variants of the query) on one obligation.
+//
+// Variants: the full query with inferred triggers (z3 5.1, z3 4.8), with the solvers' own triggers
+// (z3 5.1, z3 4.8, cvc5), and premise slices without the model axioms (heap typing, map model). For
+// set-valued queries cvc5 gets the native set theory and the z3 back ends a characteristic-array
+// encoding with axiomatised cardinality. Stage 0 abstracts quantified subformulas to atoms; the last
+// stage is relevance-guided premise selection. Every variant only drops or weakens premises, so an
+// unsat answer of any of them proves the obligation; sat answers are taken from full queries only.
 func Solve(vc *VC, o *Obligation, dir string, timeout int, modelVars []string, crossCheck bool) *SolveResult {
 	fname := filepath.Join(dir, sanitize(vc.Name+"__"+o.Name)+".smt2")
 	if len(fname) > 240 {
@@ -224,144 +237,139 @@ func Solve(vc *VC, o *Obligation, dir string, timeout int, modelVars []string, c
 	if err := os.WriteFile(fname, []byte(script), 0644); err != nil {
 		return &SolveResult{Status: "error", Output: err.Error()}
 	}
-	npname := fname
-	if np := stripPatterns(script); np != script {
-		npname = strings.TrimSuffix(fname, ".smt2") + ".nopat.smt2"
-		if os.WriteFile(npname, []byte(np), 0644) != nil {
-			npname = fname
-		}
-	}
 	if o.WantSat && timeout > 6 {
 		timeout = 6
 	}
 	usesSets := strings.Contains(script, "(Set Int)") || strings.Contains(script, "set.")
-	if !o.WantSat && !usesSets {
-		if light, dropped := vc.ScriptLight(o); dropped {
-			lf := strings.TrimSuffix(fname, ".smt2") + ".light.smt2"
-			if os.WriteFile(lf, []byte(light), 0644) == nil {
-				t0 := time.Now()
-				cmd := exec.Command("z3-new", "-T:4", lf)
-				var buf bytes.Buffer
-				cmd.Stdout = &buf
-				cmd.Stderr = &buf
-				_ = cmd.Run()
-				if parseStatus(buf.String()) == "unsat" {
-					return &SolveResult{Status: "unsat", Solver: "z3-new(qf-slice)", Seconds: time.Since(t0).Seconds(), Output: buf.String(), File: lf, All: map[string]string{"z3-new(qf-slice)": "unsat"}}
+	write := func(suffix, text string) string {
+		f := strings.TrimSuffix(fname, ".smt2") + suffix
+		if os.WriteFile(f, []byte(text), 0644) != nil {
+			return ""
+		}
+		return f
+	}
+	zscript := script // what the z3 back ends see
+	if usesSets {
+		zscript = setsToArrays(script)
+	}
+	zfile := fname
+	if zscript != script {
+		zfile = write(".z3sets.smt2", zscript)
+	}
+	run := func(ctx context.Context, name string, args []string, file string) *SolveResult {
+		t0 := time.Now()
+		var cmd *exec.Cmd
+		if ctx != nil {
+			cmd = exec.CommandContext(ctx, args[0], args[1:]...)
+		} else {
+			cmd = exec.Command(args[0], args[1:]...)
+		}
+		var buf bytes.Buffer
+		cmd.Stdout = &buf
+		cmd.Stderr = &buf
+		_ = cmd.Run()
+		out := buf.String()
+		st := parseStatus(out)
+		if ctx != nil && ctx.Err() != nil && st != "sat" && st != "unsat" {
+			st = "cancelled"
+		}
+		r := &SolveResult{Status: st, Solver: name, Seconds: time.Since(t0).Seconds(), Output: out, File: file}
+		if st == "sat" {
+			r.Values = parseValues(out)
+		}
+		return r
+	}
+	z3args := func(bin, f string, t int) []string { return []string{bin, fmt.Sprintf("-T:%d", t), f} }
+
+	// stage 0: quantifiers as atoms
+	if !o.WantSat {
+		if light, changed := lightOf(zscript); changed {
+			if lf := write(".light.smt2", light); lf != "" {
+				if r := run(nil, "z3-new(quantifiers-as-atoms)", z3args("z3-new", lf, 4), lf); r.Status == "unsat" {
+					r.All = map[string]string{r.Solver: "unsat"}
+					return r
+				}
+			}
+		}
+	}
+
+	type racer struct {
+		name     string
+		args     []string
+		file     string
+		onlyUnsat bool
+	}
+	var racers []racer
+	nopat := stripPatterns(zscript)
+	npfile := zfile
+	if nopat != zscript {
+		npfile = write(".nopat.smt2", nopat)
+	}
+	if zfile != "" {
+		racers = append(racers, racer{"z3-new", z3args("z3-new", zfile, timeout), zfile, usesSets}, racer{"z3", z3args("z3", zfile, timeout), zfile, usesSets})
+	}
+	if npfile != "" && npfile != zfile {
+		racers = append(racers, racer{"z3-new(auto-triggers)", z3args("z3-new", npfile, timeout), npfile, usesSets}, racer{"z3(auto-triggers)", z3args("z3", npfile, timeout), npfile, usesSets})
+	}
+	// cvc5: native sets, its own triggers
+	cscript := stripPatterns(script)
+	cfile := fname
+	if cscript != script {
+		cfile = write(".cvc5.smt2", cscript)
+	}
+	if cfile != "" {
+		racers = append(racers, racer{"cvc5", []string{"cvc5", fmt.Sprintf("--tlimit=%d", timeout*1000), "--produce-models", cfile}, cfile, false})
+	}
+	if !o.WantSat {
+		for vi, kinds := range [][]string{{"heaptyping", "mapwf"}, {"heaptyping"}, {"mapwf"}} {
+			if sl, dropped := withoutOf(zscript, kinds...); dropped {
+				if sf := write(fmt.Sprintf(".slice%d.smt2", vi), sl); sf != "" {
+					racers = append(racers, racer{fmt.Sprintf("z3-new(slice%d)", vi), z3args("z3-new", sf, timeout), sf, true})
 				}
 			}
 		}
 	}
 	ctx, cancel := context.WithCancel(context.Background())
 	defer cancel()
-	type ans struct {
-		r *SolveResult
-	}
-	ch := make(chan ans, len(solvers)+8)
-	n := 0
-	// sound premise slices raced alongside the full query (an unsat of a slice is an unsat of the query)
-	if !o.WantSat && !usesSets {
-		for vi, kinds := range [][]string{{"heaptyping", "mapwf"}, {"heaptyping"}, {"mapwf"}} {
-			sl, dropped := vc.ScriptWithout(o, kinds...)
-			if !dropped {
-				continue
-			}
-			sf := strings.TrimSuffix(fname, ".smt2") + fmt.Sprintf(".slice%d.smt2", vi)
-			if os.WriteFile(sf, []byte(sl), 0644) != nil {
-				continue
-			}
-			n++
-			go func(sf string, vi int) {
-				t0 := time.Now()
-				cmd := exec.CommandContext(ctx, "z3-new", fmt.Sprintf("-T:%d", timeout), sf)
-				var buf bytes.Buffer
-				cmd.Stdout = &buf
-				cmd.Stderr = &buf
-				_ = cmd.Run()
-				st := parseStatus(buf.String())
-				if st != "unsat" {
-					st = "cancelled" // only a proof counts for a slice
+	ch := make(chan *SolveResult, len(racers))
+	for _, rc := range racers {
+		go func(rc racer) {
+			r := run(ctx, rc.name, rc.args, rc.file)
+			if rc.onlyUnsat && r.Status != "unsat" {
+				// weakened or re-encoded queries only count when they prove the goal
+				if r.Status == "sat" {
+					r.Status = "unknown"
 				}
-				ch <- ans{&SolveResult{Status: st, Solver: fmt.Sprintf("z3-new(slice%d)", vi), Seconds: time.Since(t0).Seconds(), Output: buf.String(), File: sf}}
-			}(sf, vi)
-		}
-	}
-	for _, s := range solvers {
-		if usesSets && !s.sets {
-			continue
-		}
-		n++
-		go func(s solverSpec) {
-			f := fname
-			if s.name == "cvc5" {
-				f = npname // cvc5 selects its own triggers
 			}
-			args := s.args(f, timeout)
-			t0 := time.Now()
-			cmd := exec.CommandContext(ctx, args[0], args[1:]...)
-			var buf bytes.Buffer
-			cmd.Stdout = &buf
-			cmd.Stderr = &buf
-			_ = cmd.Run()
-			out := buf.String()
-			st := parseStatus(out)
-			if ctx.Err() != nil && st != "sat" && st != "unsat" {
-				st = "cancelled"
-			}
-			r := &SolveResult{Status: st, Solver: s.name, Seconds: time.Since(t0).Seconds(), Output: out, File: fname}
-			if st == "sat" {
-				r.Values = parseValues(out)
-			}
-			ch <- ans{r}
-		}(s)
-	}
-	if npname != fname {
-		for _, bin := range []string{"z3-new", "z3"} {
-			n++
-			go func(bin string) {
-				t0 := time.Now()
-				cmd := exec.CommandContext(ctx, bin, fmt.Sprintf("-T:%d", timeout), npname)
-				var buf bytes.Buffer
-				cmd.Stdout = &buf
-				cmd.Stderr = &buf
-				_ = cmd.Run()
-				st := parseStatus(buf.String())
-				if ctx.Err() != nil && st != "sat" && st != "unsat" {
-					st = "cancelled"
-				}
-				r := &SolveResult{Status: st, Solver: bin + "(auto-triggers)", Seconds: time.Since(t0).Seconds(), Output: buf.String(), File: npname}
-				if st == "sat" {
-					r.Values = parseValues(buf.String())
-				}
-				ch <- ans{r}
-			}(bin)
-		}
+			ch <- r
+		}(rc)
 	}
 	var best *SolveResult
 	all := map[string]string{}
-	for i := 0; i < n; i++ {
-		a := <-ch
-		all[a.r.Solver] = a.r.Status
-		if a.r.Status == "sat" || a.r.Status == "unsat" {
-			if best == nil || (best.Status != "sat" && best.Status != "unsat") {
-				best = a.r
-				if !crossCheck {
-					cancel()
-				}
-			} else if crossCheck && best.Status != a.r.Status {
-				best = &SolveResult{Status: "error", Solver: "cross-check", Output: fmt.Sprintf("solvers disagree: %v", all), File: fname}
+	for range racers {
+		r := <-ch
+		all[r.Solver] = r.Status
+		definite := r.Status == "sat" || r.Status == "unsat"
+		switch {
+		case definite && (best == nil || (best.Status != "sat" && best.Status != "unsat")):
+			best = r
+			if !crossCheck {
+				cancel()
 			}
-		} else if best == nil || (best.Status == "cancelled") || (best.Status == "error" && a.r.Status != "error" && a.r.Status != "cancelled") {
-			if best == nil || best.Status != "sat" && best.Status != "unsat" {
-				best = a.r
-			}
+		case definite && crossCheck && best.Status != r.Status:
+			best = &SolveResult{Status: "error", Solver: "cross-check", Output: fmt.Sprintf("solvers disagree: %v", all), File: fname}
+		case !definite && best == nil:
+			best = r
+		case !definite && best != nil && (best.Status == "cancelled" || best.Status == "error") && r.Status != "cancelled":
+			best = r
 		}
 	}
 	if best == nil {
 		best = &SolveResult{Status: "error", Output: "no solver applicable", File: fname}
 	}
 	best.All = all
-	if !o.WantSat && !usesSets && best.Status != "unsat" && best.Status != "sat" {
-		if r := rescue(vc, o, fname, 60*time.Second); r != nil {
+	if !o.WantSat && best.Status != "unsat" && best.Status != "sat" {
+		if r := rescue(zscript, fname, 60*time.Second); r != nil {
 			r.All = all
 			r.All["z3-new(relevance)"] = "unsat"
 			return r
@@ -424,13 +432,51 @@ func stripPatterns(src string) string {
 	return sb.String()
 }
 
+// setsToArrays rewrites the native (cvc5) finite-set syntax into characteristic arrays with an
+// axiomatised cardinality, so that the z3 back ends (and all premise-selection stages) can be raced on
+// set-valued obligations as well. cvc5 keeps the native theory.
+func setsToArrays(src string) string {
+	if !strings.Contains(src, "(Set Int)") && !strings.Contains(src, "set.") {
+		return src
+	}
+	r := strings.NewReplacer(
+		"(as set.empty (Set Int))", "set!empty",
+		"(Set Int)", "(Array Int Bool)",
+		"(set.union ", "(set!union ",
+		"(set.inter ", "(set!inter ",
+		"(set.minus ", "(set!minus ",
+		"(set.member ", "(set!member ",
+		"(set.subset ", "(set!subset ",
+		"(set.singleton ", "(set!single ",
+		"(set.card ", "(set!card ",
+	)
+	out := r.Replace(src)
+	prelude := strings.Join([]string{
+		"(define-fun set!empty () (Array Int Bool) ((as const (Array Int Bool)) false))",
+		"(define-fun set!union ((a (Array Int Bool)) (b (Array Int Bool))) (Array Int Bool) ((_ map or) a b))",
+		"(define-fun set!inter ((a (Array Int Bool)) (b (Array Int Bool))) (Array Int Bool) ((_ map and) a b))",
+		"(define-fun set!minus ((a (Array Int Bool)) (b (Array Int Bool))) (Array Int Bool) ((_ map and) a ((_ map not) b)))",
+		"(define-fun set!member ((x Int) (a (Array Int Bool))) Bool (select a x))",
+		"(define-fun set!subset ((a (Array Int Bool)) (b (Array Int Bool))) Bool (= ((_ map and) a b) a))",
+		"(define-fun set!single ((x Int)) (Array Int Bool) (store ((as const (Array Int Bool)) false) x true))",
+		"(declare-fun set!card ((Array Int Bool)) Int)",
+		"(assert (= (set!card set!empty) 0))",
+		"(assert (forall ((a (Array Int Bool))) (! (and (>= (set!card a) 0) (=> (= (set!card a) 0) (= a set!empty))) :pattern ((set!card a)))))",
+		"(assert (forall ((x Int)) (! (= (set!card (set!single x)) 1) :pattern ((set!single x)))))",
+		"(assert (forall ((a (Array Int Bool)) (b (Array Int Bool))) (! (= (set!card ((_ map or) a b)) (- (+ (set!card a) (set!card b)) (set!card ((_ map and) a b)))) :pattern ((set!card ((_ map or) a b))))))",
+		"(assert (forall ((a (Array Int Bool)) (b (Array Int Bool))) (! (= (set!card ((_ map and) a ((_ map not) b))) (- (set!card a) (set!card ((_ map and) a b)))) :pattern ((set!card ((_ map and) a ((_ map not) b)))))))",
+		"(assert (forall ((a (Array Int Bool)) (b (Array Int Bool))) (! (and (<= (set!card ((_ map and) a b)) (set!card a)) (<= (set!card ((_ map and) a b)) (set!card b))) :pattern ((set!card ((_ map and) a b))))))",
+		"(assert (forall ((a (Array Int Bool)) (b (Array Int Bool))) (! (=> (= ((_ map and) a b) a) (and (<= (set!card a) (set!card b)) (=> (= (set!card a) (set!card b)) (= a b)))) :pattern ((set!card a) (set!card b)))))",
+	}, "\n")
+	return strings.Replace(out, "(set-logic ALL)\n", "(set-logic ALL)\n"+prelude+"\n", 1)
+}
+
 var symRe = regexp.MustCompile(`[A-Za-z_][A-Za-z0-9_.$]*[!@][A-Za-z0-9_.!]+`)
 
 // rescue: relevance-guided premise selection. Quantified assumptions are ranked by the versioned
 // symbols they share with the goal (and, transitively, with already selected assumptions) and added
 // in growing batches; any unsat answer is a proof of the full query (premises are only dropped).
-func rescue(vc *VC, o *Obligation, fname string, budget time.Duration) *SolveResult {
-	full := vc.Script(o, false, nil)
+func rescue(full string, fname string, budget time.Duration) *SolveResult {
 	lines := strings.Split(full, "\n")
 	n := len(lines)
 	var qidx []int
